@@ -110,6 +110,9 @@ def checkGrid (rb : RB) (old : GridTerm) (new : Array (Array TCell)) (lines cols
 /-- The buffer after a flush: empty, auxiliary state reset (`vc_line`/`vc_col` keep their stale values, unset). -/
 def resetExpected (rb : RB) : RB := (RB.new rb.lines rb.cols rb.vcLine rb.vcCol).compact
 
+/-- Prefix of a failure on a buffer whose content reaches beyond the terminal (known finding `no_clip_to_terminal`). -/
+def beyondPrefix : String := "content beyond the terminal (the flush does not clip): "
+
 def specFlush (rb : RB) (old : GridTerm) (lines cols : Nat) (impl : String) : String :=
   match impl.splitOn " rb=" with
   | [head, dump] =>
@@ -118,16 +121,15 @@ def specFlush (rb : RB) (old : GridTerm) (lines cols : Nat) (impl : String) : St
     -- drawing program produces (tested here on every flush; proved in C03)
     if !flushWFPb (fun _ => true) rb then "the buffer is not well-formed (FlushWFP fails): C03 invariant broken?"
     else if field ts "r" != some "ok" then "flush did not complete"
-    -- the hypothesis of `flush_spec_screen`: the content of the buffer lies within the terminal's columns (the grid is
-    -- unbounded downwards).  A buffer larger than the terminal is fine as long as what it holds fits; when it does not
-    -- (`C04_anysize_counterexample_width`: the flush does not clip) only completion and the reset are claimed.
-    else if !contentWithinB rb old.cols rb.lines then
-      (if dump != showRB (resetExpected rb) then "buffer not reset after flush" else "")
     else match (field ts "grid").bind parseGrid with
       | none => "unparsable grid"
       | some g =>
         let v := checkGrid rb old g lines cols
-        if v != "" then v
+        -- the hypothesis of `flush_spec_screen`: the content of the buffer lies within the terminal's columns (the grid
+        -- is unbounded downwards).  A buffer larger than the terminal is fine as long as what it holds fits; when it
+        -- does not, the cells of the terminal are still asked to show what the buffer holds there - and mostly do not
+        -- (`C04_anysize_counterexample_width`: the flush does not clip; known finding `no_clip_to_terminal`)
+        if v != "" then (if contentWithinB rb old.cols rb.lines then v else beyondPrefix ++ v)
         else if dump != showRB (resetExpected rb) then "buffer not reset after flush"
         else ""
   | _ => "malformed observation"
@@ -203,16 +205,13 @@ def specMFlush (rb : RB) (old : MockTerm) (impl : String) : String :=
     let ts := toks head
     if !flushWFPb (fun _ => true) rb then "the buffer is not well-formed (FlushWFP fails): C03 invariant broken?"
     else if field ts "r" != some "ok" then "flush did not complete"
-    -- the mock terminal is a screen of `old.lines` x `old.cols` (positions are clamped to it): the hypothesis of
-    -- `flush_spec_screen` is that the content of the buffer lies within it; otherwise only completion and the reset
-    -- are claimed
-    else if !contentWithinB rb old.cols old.lines then
-      (if dump != showRB (resetExpected rb) then "buffer not reset after flush" else "")
     else match (field ts "grid").bind parseMGrid with
       | none => "unparsable grid"
       | some g =>
         let v := checkMGrid rb old g
-        if v != "" then v
+        -- the mock terminal is a screen of `old.lines` x `old.cols` (positions are clamped to it); hypothesis of
+        -- `flush_spec_screen`: the content of the buffer lies within it
+        if v != "" then (if contentWithinB rb old.cols old.lines then v else beyondPrefix ++ v)
         else if dump != showRB (resetExpected rb) then "buffer not reset after flush"
         else ""
   | _ => if impl.startsWith "CRASH" then "the mock terminal crashed: " ++ impl else "malformed observation"
